@@ -33,6 +33,12 @@ for pid in allp:
         na.append({"property_id": pid, "reason": "no check built yet for this property (planned in DESIGN.md section 3); not claimed"})
 na = [n for n in na if n["property_id"] not in claimed]
 hooks = json.load(open(os.path.join(HERE, "tools", "hooks.json")))
+import subprocess
+try:
+    log = subprocess.run(["git", "-C", "/repo", "log", "--format=%H %s"], stdout=subprocess.PIPE, text=True).stdout
+    hooks["source_commits"] = [l.split()[0] for l in log.splitlines() if l.split(" ", 1)[1].startswith("verif-hook")][::-1]
+except Exception:
+    pass
 man = {
     "version": 1,
     "setup_cmd": "bin/setup",
